@@ -349,6 +349,9 @@ ARGS_LOOP:
 		// different level. It is as if it was ignoring getoptions.Pass.
 		if optPair, is := isOption(iterator.Value(), mode, false); is {
 
+			// an unknown token is passed through once, no matter how many unknown options it bundles
+			passedThrough := false
+
 			// iterate over the possible cli args and try matching against expectations
 			for _, p := range optPair {
 				// handle full option match
@@ -367,6 +370,11 @@ ARGS_LOOP:
 					// TODO: This shouldn't append new children but update existing ones and isOption needs to be able to check if the option expects a follow up argument.
 					opt := newUnknownCLIOption(currentProgramNode, p.Option, iterator.Value(), p.Args...)
 					currentProgramNode.UnknownOptions = append(currentProgramNode.UnknownOptions, opt)
+
+					if passedThrough {
+						continue
+					}
+					passedThrough = true
 
 					switch currentProgramNode.unknownMode {
 					case Pass, Warn:
